@@ -173,7 +173,7 @@ class Ctx:
             env["CGO_ENABLED"] = "1"
         if os.environ.get("VERIF_COVER"):
             # tools/coverage.sh: statement coverage of /repo reached by the correspondence checks (GOCOVERDIR is set by the caller)
-            cmd += ["-cover", "-coverpkg=github.com/akalin/gopar/..."]
+            cmd += ["-cover", "-coverpkg=github.com/akalin/gopar/...,verifharness"]   # the main package must be instrumented too or no data is written
         cmd += ["-o", out, "."]
         sh(cmd, cwd=bdir, env=env, timeout=1800)
         self._harness[key] = out
